@@ -115,6 +115,7 @@ def main():
       "C07": " The same scenarios also run on the in-process build.",
       "C17": " The same scenarios also run on the in-process build.",
       "C20": " The same scenarios also run on the in-process build.",
+      "C16": " All cases also run on the in-process build (eight type-pair cases hit a recorded known finding there: KNOWN-FINDING, exit 0).",
       "C08": " Server/client schedules, many-servers and dropped-unused cases also run on the in-process build (registry rendezvous).",
       "C09": " Streams (without the forked holder and the crashing carrier) and races also run on the in-process build.",
     }
